@@ -997,6 +997,10 @@ class Frame:
         import builtins
         if hasattr(builtins, n):
             return LibFn('builtins.' + n)
+        if getattr(self, 'is_fragment', False):
+            # a fragment is executed from a pre-state described by its contract: a name the contract does not
+            # provide means the code around the fragment changed - the contract does not apply (no verdict)
+            raise Unsupported("the fragment reads %r, which its contract's pre-state does not define" % n)
         raise SymRaise('NameError')
 
     def ev_Tuple(self, e):
